@@ -216,6 +216,8 @@ type vHandler struct {
 	closeReturned bool
 	execAt        int
 	declared      map[string]map[string]bool
+	schemas       map[string]*schema.StepOutputSchema
+	checkShape    bool
 	lateNotify    bool
 }
 
@@ -236,6 +238,9 @@ func (h *vHandler) verifAtomicNote(ev vEvent) {
 			h.finished[ev.prev] = true
 			if ev.hasOut && h.declared != nil {
 				verifrt.Assert(h.declared[ev.prev][ev.out], "every reported stage output is declared by the lifecycle")
+				if os := h.schemas[ev.prev+"."+ev.out]; os != nil && h.checkShape && ev.prev != "outputs" {
+					verifrt.Assert(verifConforms(os.Schema(), ev.data), "engine-generated stage output "+ev.prev+"."+ev.out+" conforms to the schema the provider declares for it")
+				}
 			}
 		}
 		if ev.kind == "complete" {
@@ -301,6 +306,7 @@ func verifNewEnv(hasCancel bool) *vEnv {
 	out := func(id string) *schema.StepOutputSchema {
 		return schema.NewStepOutputSchema(schema.NewScopeSchema(schema.NewObjectSchema(id, map[string]*schema.PropertySchema{})), nil, id == "error")
 	}
+	defer func() { e.verifDeclared() }()
 	e.stepSchema = schema.NewStepSchema("wait",
 		schema.NewScopeSchema(schema.NewObjectSchema("input", map[string]*schema.PropertySchema{})),
 		map[string]*schema.StepOutputSchema{"success": out("success"), "error": out("error")},
@@ -308,8 +314,20 @@ func verifNewEnv(hasCancel bool) *vEnv {
 	return e
 }
 
+type vDeployerRegistry struct{ env *vEnv }
+
+func (r *vDeployerRegistry) List() map[string]schema.Object               { return nil }
+func (r *vDeployerRegistry) DeploymentTypes() []deployer.DeploymentType { return []deployer.DeploymentType{"builtin"} }
+func (r *vDeployerRegistry) DeployConfigSchema(t deployer.DeploymentType) schema.OneOf[string] {
+	return schema.NewOneOfStringSchema[any](map[string]schema.Object{}, "deployer_name", false)
+}
+func (r *vDeployerRegistry) Create(t deployer.DeploymentType, config any, logger log.Logger) (deployer.Connector, error) {
+	return &vConnector{env: r.env}, nil
+}
+
 func (e *vEnv) runnable() *runnableStep {
 	return &runnableStep{
+		deployerRegistry: &vDeployerRegistry{env: e},
 		schemas:        schema.SchemaSchema{StepsValue: map[string]*schema.StepSchema{"wait": e.stepSchema}},
 		logger:         vLogger{},
 		deploymentType: "builtin",
@@ -319,3 +337,83 @@ func (e *vEnv) runnable() *runnableStep {
 }
 
 var verifStages = []string{"deploy", "deploy_failed", "enabling", "disabled", "starting", "running", "cancelled", "outputs", "crashed", "closed"}
+
+// ---------------------------------------------------------------------------
+// C08: structural conformance of engine-fabricated stage outputs to the schemas the same provider declares
+
+// verifConforms: data is the serialized form (maps with string keys, lists, scalars) of the object schema.
+func verifConforms(sc schema.Scope, data any) bool {
+	ss, ok := sc.(*schema.ScopeSchema)
+	if !ok {
+		return true // not a plain scope: outside the walker
+	}
+	return verifConformsObject(ss.RootObject(), data)
+}
+
+func verifConformsObject(o *schema.ObjectSchema, data any) bool {
+	var keys []string
+	get := func(k string) (any, bool) { return nil, false }
+	switch m := data.(type) {
+	case map[any]any:
+		for k := range m {
+			ks, ok := k.(string)
+			if !ok {
+				return false
+			}
+			keys = append(keys, ks)
+		}
+		get = func(k string) (any, bool) { v, ok := m[k]; return v, ok }
+	case map[string]any:
+		for k := range m {
+			keys = append(keys, k)
+		}
+		get = func(k string) (any, bool) { v, ok := m[k]; return v, ok }
+	default:
+		return false // engine-generated outputs must be in serialized (map) form to be usable by expressions
+	}
+	props := o.Properties()
+	for _, k := range keys {
+		if _, ok := props[k]; !ok {
+			return false
+		}
+	}
+	for name, p := range props {
+		v, present := get(name)
+		if !present {
+			if p.RequiredValue {
+				return false
+			}
+			continue
+		}
+		switch p.TypeID() {
+		case schema.TypeIDBool:
+			if _, ok := v.(bool); !ok {
+				return false
+			}
+		case schema.TypeIDString:
+			if _, ok := v.(string); !ok {
+				return false
+			}
+		case schema.TypeIDInt:
+			if _, ok := v.(int64); !ok {
+				return false
+			}
+		}
+	}
+	return true
+}
+
+// verifDeclared builds the declared-output table (and keeps the schemas) from the REAL Lifecycle().
+func (e *vEnv) verifDeclared() {
+	life, err := e.runnable().Lifecycle(map[string]any{"step": "wait"})
+	verifrt.Assert(err == nil, "Lifecycle() succeeds")
+	e.h.declared = map[string]map[string]bool{}
+	e.h.schemas = map[string]*schema.StepOutputSchema{}
+	for _, st := range life.Stages {
+		e.h.declared[st.ID] = map[string]bool{}
+		for id, os := range st.Outputs {
+			e.h.declared[st.ID][id] = true
+			e.h.schemas[st.ID+"."+id] = os
+		}
+	}
+}
